@@ -122,6 +122,70 @@ theorem ubi_hardcap_partial (ys w : Nat) (records : List (Nat × Nat)) (amount p
   unfold add64; rw [Nat.mod_eq_of_lt hsum]
   simp
 
+theorem exactSum_acc (ys : Nat) (l : List (Nat × Nat)) (a : Nat) :
+    exactSumFrom ys l a = a + exactSumFrom ys l 0 := by
+  induction l generalizing a with
+  | nil => simp [exactSumFrom]
+  | cons x xs ih =>
+    simp only [exactSumFrom, List.foldl_cons] at ih ⊢
+    rw [ih (a + exactTerm ys x.1 x.2), ih (0 + exactTerm ys x.1 x.2)]
+    omega
+
+theorem exactSum_cons (ys : Nat) (x : Nat × Nat) (l : List (Nat × Nat)) :
+    exactSumFrom ys (x :: l) 0 = exactTerm ys x.1 x.2 + exactSumFrom ys l 0 := by
+  have := exactSum_acc ys l (0 + exactTerm ys x.1 x.2)
+  simp only [exactSumFrom, List.foldl_cons] at this ⊢
+  omega
+
+theorem exactSum_append (ys : Nat) (l : List (Nat × Nat)) (x : Nat × Nat) :
+    exactSumFrom ys (l ++ [x]) 0 = exactSumFrom ys l 0 + exactTerm ys x.1 x.2 := by
+  simp [exactSumFrom, List.foldl_append]
+
+theorem exactSum_set_le (ys : Nat) (l : List (Nat × Nat)) (j : Nat) (x : Nat × Nat) :
+    exactSumFrom ys (l.set j x) 0 ≤ exactSumFrom ys l 0 + exactTerm ys x.1 x.2 := by
+  induction l generalizing j with
+  | nil => simp [exactSumFrom]
+  | cons y ys' ih =>
+    cases j with
+    | zero =>
+      rw [List.set_cons_zero, exactSum_cons, exactSum_cons]; omega
+    | succ j =>
+      rw [List.set_cons_succ, exactSum_cons, exactSum_cons]
+      have := ih j; omega
+
+/-- **after every accepted upsert — under a new name or replacing a stored record — the exact yearly total of the
+stored records is within the cap**, when no uint64 wrap-around occurs (the replaced record is counted too, which
+only makes the test stricter) -/
+theorem ubi_state_within_cap_partial (records : List (Nat × Nat)) (replace : Option Nat)
+    (amount period hardcap : Nat) (rs' : List (Nat × Nat))
+    (hmul : ∀ r ∈ records, r.1 * yearSeconds < word) (ha : amount * yearSeconds < word)
+    (hsum : exactSumFrom yearSeconds records 0 + exactTerm yearSeconds amount period < word)
+    (h : ubiApply records replace amount period hardcap = some (some rs')) :
+    exactSumFrom yearSeconds rs' 0 ≤ hardcap := by
+  unfold ubiApply ubiUpsert at h
+  by_cases hz : period = 0 ∨ records.any (fun r => r.2 == 0) = true
+  · rw [if_pos hz] at h; simp at h
+  · rw [if_neg hz] at h
+    cases hacc : accept yearSeconds word records amount period hardcap with
+    | false => simp [hacc] at h
+    | true =>
+      have hok := (ubi_hardcap_partial yearSeconds word records amount period hardcap hmul ha hsum).mp hacc
+      unfold exactOk at hok
+      simp only [hacc] at h
+      have happ : exactSumFrom yearSeconds (records ++ [(amount, period)]) 0 ≤ hardcap := by
+        rw [exactSum_append]; exact hok
+      cases replace with
+      | none =>
+        simp only [Option.some.injEq] at h; subst h; exact happ
+      | some j =>
+        by_cases hj : j < records.length
+        · simp only [hj, if_true, Option.some.injEq] at h; subst h
+          exact Nat.le_trans (exactSum_set_le yearSeconds records j (amount, period)) hok
+        · simp only [hj, if_false, Option.some.injEq] at h; subst h; exact happ
+
+example : ubiApply [(500000, 2592000), (100, 31556952)] (some 1) 200 31556952 7000000
+    = some (some [(500000, 2592000), (200, 31556952)]) := by decide
+
 /-- the full statement is false: 584 554 049 254 KEX per year is accepted under a 7 M cap (uint64 wrap-around);
 this witness is replayed on the real handler by the harness -/
 theorem ubi_hardcap_counterexample : ¬ ubi_hardcap_full := by
